@@ -38,7 +38,7 @@ Ltac jspec_eval :=
   lazy beta iota zeta delta [exec oploc set_nz with_A with_X with_Y with_S with_D with_DBR with_PBR with_PC
          with_N with_V with_M with_Xf with_Df with_I with_Z with_C with_E with_Stp xr yr xw mw acc with_acc abs Spec816.b2z
          rA rX rY rS rD rDBR rPBR rPC fN fV fM fX fD fI fZ fC rE rStp fst snd wmod wsgn ISA.length negb
-         push8 Spec816.push16 pushw pull8 Spec816.pull16 pullw app
+         push8 Spec816.push16 pushw pull8 Spec816.pull16 pullw app P_of
          Spec816.step_state Spec816.step_mem].
 
 Ltac jnorm :=
@@ -110,6 +110,18 @@ Ltac jfield :=
         | (unify_reads; read_ranges; jarith)
         | (unfold rd16, rd24, loc_byte; unify_reads; read_ranges; jarith) ].
 
+Lemma ite_flag : forall v, (v = 0 \/ v = 1) -> (if v =? 1 then 1 else 0) = v.
+Proof. intros v [-> | ->]; reflexivity. Qed.
+Lemma flag_rng : forall v, (v = 0 \/ v = 1) -> 0 <= v <= 1.
+Proof. intros v [-> | ->]; lia. Qed.
+(* the status byte pushed by the specification, in terms of the flag fields *)
+Ltac flag_ites s W :=
+  repeat match goal with |- context [if get ?f s =? 1 then 1 else 0] => rewrite (ite_flag (get f s)) by apply W end.
+Ltac flag_ranges s W :=
+  pose proof (flag_rng _ (wf_C s W)); pose proof (flag_rng _ (wf_Z s W)); pose proof (flag_rng _ (wf_I s W));
+  pose proof (flag_rng _ (wf_D s W)); pose proof (flag_rng _ (wf_X s W)); pose proof (flag_rng _ (wf_M s W));
+  pose proof (flag_rng _ (wf_V s W)); pose proof (flag_rng _ (wf_N s W)).
+
 Ltac hide_events :=
   repeat match goal with
          | |- context [log ?e _] =>
@@ -117,7 +129,7 @@ Ltac hide_events :=
          end.
 Ltac jabs s W Hop s1 Hs1 Hm1 mn md :=
   hide_events; unfold abs at 1; jnorm; rw_hyps; to_initial s s1 Hs1; jmem Hm1;
-  spec_side s W Hop mn md; rewrite !fetch_opnd; jspec_eval; rw_hyps; lits; cbv beta iota.
+  spec_side s W Hop mn md; rewrite !fetch_opnd; jspec_eval; rw_hyps; lits; cbv beta iota; flag_ites s W.
 
 Ltac jwf s W s1 Hs1 :=
   hide_events; constructor; unfold flag01; jnorm; rw_hyps; to_initial s s1 Hs1;
@@ -139,7 +151,7 @@ Ltac jside s W s1 Hs1 HE :=
 Ltac jmemgoal s W Hop Hm1 mn md :=
   hide_events; intro a; jmem Hm1;
   match goal with Hs1 : same s ?s1 |- _ => to_initial s s1 Hs1 end;
-  spec_side s W Hop mn md; rewrite !fetch_opnd; jspec_eval; rw_hyps; lits; cbv beta iota;
+  spec_side s W Hop mn md; rewrite !fetch_opnd; jspec_eval; rw_hyps; lits; cbv beta iota; flag_ites s W;
   first [ reflexivity | jcong ].
 
 Ltac jfin s W Hop s1 Hs1 Hm1 mn md :=
